@@ -683,6 +683,27 @@ pub fn cli_export_check(c: &ExportCase, st: &mut Stats) -> CheckResult {
                         now.len()
                     ));
                 }
+                // the same promise in every library mode (and without --lib at all)
+                for mode_args in [vec!["--lib", "biodivine"], vec!["--lib", "hybrid"], vec![]] {
+                    let mut a: Vec<String> = vec![input.display().to_string()];
+                    a.extend(mode_args.iter().map(|x| x.to_string()));
+                    a.extend(sort_args(c.sort));
+                    a.extend(sem.iter().cloned());
+                    a.push("--export".into());
+                    a.push(export.display().to_string());
+                    let hostile = c.adf.labels.iter().any(|l| gen::is_bd_hostile(l));
+                    let r = run_cli(&a)?;
+                    if r.code != Some(0) && !hostile {
+                        return Err(format!("{mode_args:?} --export onto an existing file: exit {:?}", r.code));
+                    }
+                    let now = std::fs::read(&export).map_err(|e| e.to_string())?;
+                    if now != e.as_bytes() {
+                        return Err(format!(
+                            "{mode_args:?}: --export overwrote an existing file (content was {e:?}, is now {} bytes)",
+                            now.len()
+                        ));
+                    }
+                }
                 Ok(false)
             }
             None => {
